@@ -9,7 +9,7 @@ import sklearn.cluster
 import sklearn.mixture
 
 import pykoop
-from .. import core
+from .. import structural as st, core
 
 THEOREMS = ['Pk.C18.C18_range_contains', 'Pk.C18.C18_symmetric_range', 'Pk.C18.C18_scaled_in_range',
             'Pk.C18.C18_linspace_in_range', 'Pk.C18.C18_grid_complete', 'Pk.C18.C18_grid_shape',
@@ -144,12 +144,15 @@ def run(ctx):
         rng = ctx.rng
         nf = rng.randint(1, 5)
         X = np.array([[rng.randint(-6, 6) for _ in range(nf)] for _ in range(rng.randint(4, 9))], dtype=float)
+        # the integer-valued data in another valid form: integer dtype, Fortran order, read-only, strided view
+        form = st.pick_form(rng, integral=True)
+        Xf = st.in_form(X, form)
         for name, est, tag in generators(rng, nf):
-            tag = dict(tag, generator=name, n_features=nf)
+            tag = dict(tag, generator=name, n_features=nf, form=form)
             if name == 'GridCenters' and est.n_points_per_feature ** nf > 300:
                 continue
             try:
-                est.fit(X)
+                est.fit(Xf)
             except Exception as ex:
                 ctx.count(f'fit_raised:{name}:{type(ex).__name__}')
                 continue
@@ -171,6 +174,20 @@ def run(ctx):
                     ctx.fail(f'{name}: a centre lies outside the per-feature range of the data', dict(tag, X=X.tolist()),
                              {'estimator': name, 'part': 'range'})
             if name == 'GridCenters':
+                # definition, computed independently: the Cartesian product of n equally spaced points per feature over
+                # the (possibly symmetric) range of the data
+                import itertools
+                lo_f, hi_f = X.min(axis=0), X.max(axis=0)
+                if tag['sym']:
+                    m_abs = np.maximum(np.abs(lo_f), np.abs(hi_f))
+                    lo_f, hi_f = -m_abs, m_abs
+                axes = [np.linspace(a, b, est.n_points_per_feature) for a, b in zip(lo_f, hi_f)]
+                want = sorted(itertools.product(*[[float(v) for v in ax] for ax in axes]))
+                got = sorted(tuple(float(v) for v in r) for r in C)
+                if len(got) != len(want) or not np.allclose(np.array(got), np.array(want), rtol=1e-12, atol=1e-12):
+                    ctx.fail(f'GridCenters ({form} data): centers_ is not the Cartesian grid of {est.n_points_per_feature} equally '
+                             f'spaced points per feature over the data range', dict(tag, X=X.tolist()),
+                             {'estimator': name, 'part': 'grid'})
                 lines.append(f"centers grid {1 if tag['sym'] else 0} {est.n_points_per_feature} {rmat(X)}")
                 meta.append(('grid', est, X, tag))
             if name == 'DataCenters' and not np.array_equal(C, X):
@@ -229,10 +246,10 @@ def run(ctx):
             vals = np.array([unbits(x) for x in t[1:]]).reshape(Xt.shape) if t[0] == 'ok' and len(t) - 1 == Xt.size else None
             if vals is None or not np.allclose(vals, Xt, rtol=1e-11, atol=1e-13, equal_nan=True):
                 ctx.mismatch('RBF feature formula', tag, Xt.tolist(), None if vals is None else vals.tolist())
-    for st in ('int', 'instance'):
+    for seed_kind in ('int', 'instance'):
         for _ in range(ctx.n(2, 10)):
-            res = independence_probe(ctx.rng, st)
-            ctx.count('independence:' + st)
+            res = independence_probe(ctx.rng, seed_kind)
+            ctx.count('independence:' + seed_kind)
             if res:
                 ctx.fail(res[0], {'probe': 'independence'}, res[1])
     for mode in ('default', 'shared-grid', 'shared-qmc'):
